@@ -29,7 +29,10 @@ def ret_jobs(ctx, recs):
 
 def report(ctx, rej, failures):
     for f in failures:
-        ctx.report("%s:%s" % (f["kind"], f["pkg"]), "%s of a generated package of valid programs: %s" % (f["kind"], f["detail"][:300]), f)
+        # key = kind + profile + the first line of the diagnostic (the mechanism), not the package number
+        msg = abigen.re.sub(r"\s+", " ", f["detail"].split("|", 1)[-1].strip())[:140]
+        ctx.report("%s:%s:%s" % (f["kind"], f.get("profile", ""), msg),
+                   "%s of a generated package of valid programs (%s): %s" % (f["kind"], f["pkg"], f["detail"][:300]), f)
     for rj in rej:
         r = rj["rec"]
         key = "%s:%s:%s" % (r["ev"].lower(), abigen.short_type(r["t"]), rj["failed"])
